@@ -117,3 +117,65 @@ Theorem C01_kernel_set_literal_brace_first : forall a es,
   exists rest, pp (rw_set_literal (ECall BSet [EList (a :: es)])) = 123%N :: rest.
 Proof. exact RewriteFacts.C01_kernel_set_literal_brace_first. Qed.
 Print Assumptions C01_kernel_set_literal_brace_first.
+(** the same for invert-boolean-check, where no field keeps them apart (finding kf_invert_fstring_braces): dropping `not `
+    in front of a comparison whose leftmost operand is a display leaves `{` as the first character: `not {1} == v0` *)
+Definition w_invert_brace : expr := ENot false (ECmp false (ESet [EConst (CInt 1)]) [(Eq, EName 0%N)]).
+Example C01_kernel_invert_brace_first :
+  hd 0%N (pp w_invert_brace) = 110%N /\
+  hd 0%N (pp (invert_file pinned_invert w_invert_brace)) = 123%N /\ hd 0%N (pp (invert_file repaired_invert w_invert_brace)) = 123%N.
+Proof. vm_compute. repeat split. Qed.
+
+(** * Whole-tree kernel theorems and their composition with the lifting theorem (Proofs/WholeTree.v, Proofs/LiftWholeTree.v)
+    [wfc] = [wf] + "operands of comparisons and of // are atoms or parenthesised" (what a parser yields there).  For every
+    expression, every site, nested ones included: *)
+From CM Require Import Proofs.WholeTree Proofs.LiftWholeTree.
+Theorem C01_kernel_hasattr_wf_all : forall cfg e, wfc e = true -> wfc (rw_hasattr cfg e) = true.
+Proof. exact hasattr_wfc. Qed.
+Print Assumptions C01_kernel_hasattr_wf_all.
+Theorem C01_kernel_identity_wf_all : forall e, wfc e = true -> wfc (rw_identity e) = true.
+Proof. exact identity_wfc. Qed.
+Print Assumptions C01_kernel_identity_wf_all.
+Theorem C01_kernel_empty_seq_wf_all : forall cfg e, es_parens cfg = true -> wfc e = true -> wfc (empty_seq_file cfg false e) = true.
+Proof. exact empty_seq_wfc. Qed.
+Print Assumptions C01_kernel_empty_seq_wf_all.
+Theorem C01_kernel_generator_wf_all : forall cfg e, ug_nested cfg = true -> ug_updated_parts cfg = true ->
+  wfc e = true -> wfc (generator_file cfg e) = true.
+Proof. exact generator_wfc. Qed.
+Print Assumptions C01_kernel_generator_wf_all.
+Theorem C01_kernel_set_literal_wfc_all : forall e, wfc e = true -> wfc (rw_set_literal e) = true.
+Proof. exact set_literal_wfc. Qed.
+Print Assumptions C01_kernel_set_literal_wfc_all.
+(** composed with the run: after ANY run of codemods whose transformer is the kernel, every non-manifest file that parsed
+    before the run parses after it *)
+Theorem C01_fix_hasattr_call_run_parses : C01_kernel_run_statement (rw_hasattr hasattr_cfg_v) run_tables_v.
+Proof. exact (C01_kernel_run_all _ (hasattr_wfc hasattr_cfg_v) run_tables_v). Qed.
+Print Assumptions C01_fix_hasattr_call_run_parses.
+Theorem C01_identity_run_parses : C01_kernel_run_statement rw_identity run_tables_v.
+Proof. exact (C01_kernel_run_all _ identity_wfc run_tables_v). Qed.
+Print Assumptions C01_identity_run_parses.
+Theorem C01_use_generator_run_parses : C01_generator_run_statement generator_cfg_v run_tables_v.
+Proof. exact (C01_generator_run_all generator_cfg_v run_tables_v). Qed.
+Print Assumptions C01_use_generator_run_parses.
+Theorem C01_empty_seq_run_parses : C01_empty_seq_run_statement empty_seq_cfg_v run_tables_v.
+Proof. exact (C01_empty_seq_run_all empty_seq_cfg_v run_tables_v). Qed.
+Print Assumptions C01_empty_seq_run_parses.
+(** on the tables read from the current source these are the laws, not the vacuous branches *)
+Example C01_kernel_run_branches :
+  ug_nested generator_cfg_v && ug_updated_parts generator_cfg_v = true /\ es_parens empty_seq_cfg_v = true.
+Proof. split; reflexivity. Qed.
+Example C01_wfc_example : wfc (EFloorDiv (EConst (CInt 2)) (ECmp true (EName 1%N) [(Eq, EList [])])) = true /\
+  wfc (EFloorDiv (EConst (CInt 2)) (ECmp false (EName 1%N) [(Eq, EList [])])) = false.
+Proof. split; reflexivity. Qed.
+
+(** str-concat-in-sequence-literals (implicitly concatenated strings inside a display become separate elements):
+    well-formedness is kept on every expression, in both source forms; composed with the run *)
+From CM Require Import Proofs.StrConcatFacts.
+Theorem C01_kernel_str_concat_wf_all : forall cfg e, wfc e = true -> wfc (rw_str_concat cfg e) = true.
+Proof. exact str_concat_wfc. Qed.
+Print Assumptions C01_kernel_str_concat_wf_all.
+Theorem C01_str_concat_run_parses : C01_kernel_run_statement (rw_str_concat str_concat_cfg_v) run_tables_v.
+Proof. exact (C01_kernel_run_all _ (str_concat_wfc str_concat_cfg_v) run_tables_v). Qed.
+Print Assumptions C01_str_concat_run_parses.
+Example C01_kernel_str_concat_example :
+  wfc w_sc_nested = true /\ rw_str_concat str_concat_cfg_v w_sc_nested <> w_sc_nested.
+Proof. vm_compute. split; [reflexivity|discriminate]. Qed.
